@@ -24,6 +24,8 @@ fn main() {
     let t0 = std::time::Instant::now();
     let oracle = pcv_core::checks::oracle_selfcheck(&cfg);
     let mut rep = match cfg.prop.as_str() {
+        "C15" | "C16" | "C19" if cfg.replay.is_some() => trees::replay(&cfg, &cfg.prop),
+        "C17" | "C18" if cfg.replay.is_some() => dynm::replay(&cfg, &cfg.prop),
         "C14" => c14::run(&cfg),
         "C15" => trees::run_c15(&cfg),
         "C16" => trees::run_c16(&cfg),
@@ -35,8 +37,8 @@ fn main() {
             std::process::exit(3);
         }
     };
-    if cfg.replay.is_some() {
-        rep.stats.notes.push("replay files of the schema checks carry the full concrete case (schema Debug form, bytes / JSON); the check is re-run to reproduce".into());
+    if cfg.replay.is_some() && cfg.prop == "C14" {
+        rep.stats.notes.push("C14 replay files name the concrete type and value; the whole (sub-second) check is re-run to reproduce".into());
     }
     match oracle {
         Ok(j) => {
